@@ -14,7 +14,7 @@ CHECKS = {
          "trusts package time's arithmetic; window taken at whole-second granularity (see evidence assumptions)", "3/C04"),
  "C18": ("exploration", "runtime oracle (math/big, exact rationals) on the exported conversion functions; exhaustive scaled-ppm range in the thorough tier",
          "Held on all generated values including every int64 boundary class; the kernel's scaled-ppm range is enumerated completely in thorough.",
-         "trusts math/big; CSPTP offset/delay inputs bounded so that no intermediate overflows int64 ns", "3/C18"),
+         "trusts math/big; CSPTP offset and delay each within int64 ns (one-way terms and raw timestamp differences may exceed it), corrections within the 48 bits of a correction field", "3/C18"),
  "C16": ("fault_enumeration", "runtime monitor in testing/synctest bubbles (virtual time) under the race detector: enumerated completion-time x outcome fault scripts for scripted reference clocks",
          "Every (completion time relative to the deadline) x (success/error) pattern for small n is enumerated, random scripts extend to 16 clocks; the oracle reads only the virtual clock, the result slice and bubble quiescence.",
          "trusts testing/synctest's virtual time and deadlock detection (go1.24 experiment); a result completing exactly at the deadline may go either way", "3/C16"),
@@ -34,7 +34,7 @@ CHECKS = {
          "Held on all generated histories (colliding/decreasing receive times, clock before/at/after rx, own/foreign/unknown origins, reordered and lost transmit timestamps).",
          "hook level (build tag verif); double updates and a kernel stamp equal to the software time are outside the generated domain", "3/C06"),
  "C07": ("exploration", "store invariants walked under the store's own lock after every operation; capacity/eviction at exactly 2^20 clients; concurrent histories under the race detector checked for linearizability with porcupine against the code's own sequential behaviour",
-         "Held on all histories: structure and ranking after every operation, eviction exactly as stated at capacity, no race report in core/server, every recorded concurrent history linearizable.",
+         "Held on all histories: structure and ranking after every operation (exact for clients whose receive timestamps never decrease, repeated timestamps included), eviction exactly as stated at capacity, no race report in core/server, every recorded concurrent history linearizable.",
          "hook level; linearizability below capacity (partition by client); porcupine timeout = inconclusive; reach of the race detector = interleavings the scheduler produced (counted in the evidence)", "3/C07"),
  "C09": ("exploration", "runtime monitor on real sockets: raw UDP peer against the real IP and SCION listeners in a child process, 'no reply' decided by the ordering of a sentinel request, replies attributed by unique origin timestamps",
          "Complete first-byte space x boundary lengths x remainder kinds plus valid/invalid NTS requests over IP and SCION (service port and end-host port, empty and hand-built paths); every datagram's reply count and every reply's header and addressing checked.",
@@ -48,7 +48,7 @@ CHECKS = {
  "C14": ("exploration", "runtime round-trip oracles on the exported codecs (exhaustive 8/16-bit fields, boundary-dense wider fields, random values and byte strings) and NTS-KE streams delivered through every single cut point, one-byte/half readers, multi-cut and small bufio readers",
          "decode(encode(v)) = v, encode(decode(b)) = b for headers, extension-field kinds preserved and 4-byte aligned, segmentation-independence of ReadData at every cut point of generated server messages.",
          "iotest/bufio readers stand in for transport segmentation (same read boundaries as TLS records); request sizes kept within the 1024-byte NTS packet limit", "3/C14"),
- "C20": ("fault_enumeration", "runtime monitor of the real Fetcher (and IP client) against a scripted TLS NTS-KE server: enumerated record-stream faults (record x position, truncation at every byte, segmentation at every byte, ALPN offers) and sequences of failed and successful exchanges; keys compared with the server side's exporter values; plus a leg compiled into the service's own package (overlay build) that checks what timeservice.go hands to the key-exchange fetchers of its IP and SCION clients",
+ "C20": ("fault_enumeration", "runtime monitor of the real Fetcher (and IP client) against a scripted TLS NTS-KE server: enumerated record-stream faults (record x position, truncation at every byte, segmentation at every byte, ALPN offers) sequences of failed and successful exchanges, and a late response of a superseded session arriving after the next exchange; keys compared with the server side's exporter values; plus a leg compiled into the service's own package (overlay build) that checks what timeservice.go hands to the key-exchange fetchers of its IP and SCION clients",
          "Every fault class is enumerated over every position of a conformant message; verdict per stream derived from the statement (must fail / must succeed / either); state after failures observed through connection counts and tagged cookies.",
          "IP-literal server records only; TLS library and exporter trusted; warning records and non-canonical record lengths are judged only for crash-freedom and, if accepted, for the rest of the stream", "3/C20"),
  "C05": ("exploration", "runtime monitor of the real IP and SCION clients against a scripted loopback peer that answers each request with a script of crafted datagrams, each tagged by a distinct huge clock offset so that the returned offset identifies the datagram it was computed from",
